@@ -352,6 +352,7 @@ def run(ctx):
     ctx.rule('C11.CACHE', lambda: c12.rule_cache_commit(ctx, 'C11.CACHE'), 4)
     ctx.rule('C11.CACHES', lambda: rule_cachefill(ctx) + c10.rule_signal(ctx, 'C11.CACHES'), 9)
     ctx.rule('C11.BYHEIGHT', lambda: c10.rule_byheight(ctx, 'C11.BYHEIGHT'), 2)
+    ctx.rule('C11.BYHEIGHTCLEAR', lambda: c10.rule_byheight_fields(ctx, 'C11.BYHEIGHTCLEAR'), 2)
     ctx.rule('C11.TSCFORWARD', lambda: c12.rule_tscforward(ctx, 'C11.TSCFORWARD'), 5)
 
 
